@@ -9,8 +9,8 @@ written?); `encodeFields` is the writer, `decodeFields` the reader.  The value o
 one list of child items per field (`SVal`); children that are structures themselves are kept as items (their own
 schema applies to them in turn).
 
-`writes = false` marks a field the reader knows but the writer never emits (F-C01-c:
-ResponseHeader.server_correlation_value).  Versions are 10, 11, 12, 13, 14, 20.
+`writes = false` marks a field the reader knows but the writer never emits (no class of the table has one since
+/repo 15c47ac repaired ResponseHeader.server_correlation_value; `all_schemas_written` checks that).  Versions are 10, 11, 12, 13, 14, 20.
 -/
 import KmipModel.TTLV
 namespace Kmip.Schema
